@@ -36,6 +36,8 @@ class S(diff.DiffOperator):
 
         if not isinstance(k, int):
             k = np.atleast_2d(k)
+            if np.any(np.all(np.isclose(k, 0), axis=-1)):
+                raise TypeError("Cannot have k == 0")
             if not k.shape[-1] in [1, 2, 3, 4]:
                 raise ValueError(f"k.shape[-1] must belong to [1, 2, 3, 4]")
 
